@@ -146,6 +146,9 @@ HAND = {
     "module_like_globals": "var g1 = 1; let g2 = 2; const g3 = 3; function gf() { return g1 + g2 + g3; } class GC { static v = g2; } gf(); g1 = g2 = 5; g2 += g1; g1++; g2 ??= 1; ({g1, g2} = {g1: 1, g2: 2}); [g1, g2] = [g2, g1];",
     "short_circuit_assign_all_targets": "var g = null, o = {p: null, q: 1}, k = 'p'; let l = 0; g ??= 1; g ||= 2; g &&= 3; l ??= 1; l ||= 2; l &&= 3; o.p ??= 1; o.p ||= 2; o.q &&= 3; o[k] ??= 4; o[k] ||= 5; o[k] &&= 6; function f() { var v; v ??= 1; v ||= 2; v &&= 3; return v; } f(); class A { #x = null; m() { this.#x ??= 1; this.#x ||= 2; this.#x &&= 3; } } new A().m(); class B extends A { n() { super.z ??= 1; super['z'] ||= 2; super.z &&= 3; } } new B().n();",
     "compound_assign_all_targets": "var g = 1, o = {p: 1}, k = 'p'; let l = 1; g += 1; g -= 1; g *= 2; g /= 2; g %= 3; g **= 2; g <<= 1; g >>= 1; g >>>= 1; g &= 3; g |= 4; g ^= 1; l += g; o.p += 1; o[k] -= 1; o[k] *= o.p; function f(a) { a += 1; var b = a; b *= a; return b; } f(1);",
+    "class_computed_accessors": "var k = 'k'; class A { get [k]() { return 1; } set [k](v) {} static get [k + 's']() { return 2; } static set [k + 's'](v) {} static set named(v) {} static get named() { return 3; } get plain() { return 4; } set plain(v) {} } new A()[k]; A.named = A.ks;",
+    "infinities_nan_consts": "var a = -1 / 0, b = -Infinity, c = -1e999, d = 1e999, e = 0 / 0, f = -0; [a, b, c, d, e, f, -(1 / 0), +Infinity];",
+    "eval_var_in_function_scopes": "function f() { eval('var ev1 = 1; function ef() { return ev1; } { let el = 2; var ev2 = el; }'); return ev1 + ev2 + ef(); } f(); function g(s) { 'use strict'; return eval(s); } g('var sv = 1; let sl = 2; class C {} sv + sl');",
     "short_circuit_in_expr_context": "var i = 7, j = null; var v = 'x' + (i ??= 3); var w = [j ||= 2, j &&= 3]; var u = f(i ??= 1, j ??= 2); function f() {} var t = (i &&= 0) ? 1 : 2; while (j ||= 0) { j = 0; } if (i ??= 1) { }",
 }
 for k, v in HAND.items():
